@@ -1,12 +1,14 @@
 /-
   C14 — Name and reference validation accepts exactly resolvable, collision-free input.
-  (work in progress: pass-order obligation; accept-iff theorems follow)
 -/
 import DDV.Extracted.Tables
 import DDV.Gen.Pipeline
+import DDV.Gen.Lemmas.Tree
 
 namespace DDV.Props.C14
 open DDV.Gen
+set_option linter.unusedVariables false
+set_option linter.unusedSimpArgs false
 
 /-- The statement order of `run_passes` in the source is the order `runPasses` composes the passes
     in (so e.g. refs are validated before anything dereferences them). -/
@@ -15,5 +17,148 @@ theorem pass_order_matches_model : DDV.Extracted.passOrder = DDV.Gen.passOrder :
 theorem refs_validated_before_reset_values :
     (DDV.Extracted.passOrder.idxOf "refs_validated") < (DDV.Extracted.passOrder.idxOf "reset_values_converted") := by
   decide
+
+/-! ### Refs -/
+
+/-- every ref of kind `k` targets the name of a real object of kind `k` -/
+def RefsResolve (objs : List Object) (k : RefKind) : Prop :=
+  ∀ x ∈ refsOfKind objs k, x.1 ∈ realsOfKind objs k
+
+theorem reportBadRefs_ok_iff (refs bad : List (String × String)) (k : RefKind) :
+    reportBadRefs refs bad k = .ok () ↔ bad = [] := by
+  unfold reportBadRefs
+  cases bad <;> simp
+
+theorem reportBadRefs_error (refs bad : List (String × String)) (k : RefKind) (s : Stop)
+    (h : reportBadRefs refs bad k = .error s) : ∃ e, s = .error e ∧ e.names.length = 2 := by
+  unfold reportBadRefs at h
+  cases bad with
+  | nil => cases h
+  | cons b bs => exact ⟨_, (Except.error.inj h).symm, rfl⟩
+
+theorem checkRefKind_ok_iff (objs : List Object) (k : RefKind) :
+    checkRefKind objs k = .ok () ↔ RefsResolve objs k := by
+  unfold checkRefKind RefsResolve
+  rw [reportBadRefs_ok_iff, List.filter_eq_nil_iff]
+  constructor
+  · intro h x hx
+    have := h x hx
+    simp only [Bool.not_eq_true', Bool.not_eq_false, Bool.not_not] at this
+    exact List.contains_iff_mem.1 (by simpa using this)
+  · intro h x hx
+    have := h x hx
+    simp [this]
+
+/-- **Refs, acceptance.** `refs_validated` accepts iff every block / register / command ref
+    targets an existing object of the kind its override states (a missing target and a target of
+    another kind are both "unknown <kind>"); it never panics, and the error names the ref and its
+    target. -/
+theorem refs_accept_iff (d : Device) :
+    refsValidated d = .ok d ↔
+      RefsResolve (allObjects d.objects) .block ∧ RefsResolve (allObjects d.objects) .register ∧
+      RefsResolve (allObjects d.objects) .command := by
+  unfold refsValidated
+  simp only
+  rw [← checkRefKind_ok_iff, ← checkRefKind_ok_iff, ← checkRefKind_ok_iff]
+  cases h1 : checkRefKind (allObjects d.objects) .block with
+  | error e => simp
+  | ok u =>
+    cases h2 : checkRefKind (allObjects d.objects) .register with
+    | error e => simp
+    | ok u2 =>
+      cases h3 : checkRefKind (allObjects d.objects) .command with
+      | error e => simp
+      | ok u3 => simp
+
+theorem refs_rejection_is_an_error (d : Device) (s : Stop) (h : refsValidated d = .error s) :
+    ∃ e, s = .error e ∧ e.names.length = 2 := by
+  have hk : ∀ k s', checkRefKind (allObjects d.objects) k = .error s' → ∃ e, s' = .error e ∧ e.names.length = 2 := by
+    intro k s' h'
+    exact reportBadRefs_error _ _ k s' h'
+  unfold refsValidated at h
+  simp only at h
+  cases h1 : checkRefKind (allObjects d.objects) .block with
+  | error e => rw [h1] at h; exact hk _ _ (by rw [h1]; exact congrArg _ (Except.error.inj h))
+  | ok u =>
+    rw [h1] at h
+    simp only at h
+    cases h2 : checkRefKind (allObjects d.objects) .register with
+    | error e => rw [h2] at h; exact hk _ _ (by rw [h2]; exact congrArg _ (Except.error.inj h))
+    | ok u2 =>
+      rw [h2] at h
+      simp only at h
+      cases h3 : checkRefKind (allObjects d.objects) .command with
+      | error e => rw [h3] at h; exact hk _ _ (by rw [h3]; exact congrArg _ (Except.error.inj h))
+      | ok u3 => rw [h3] at h; cases h
+
+/-- **Resolution anywhere in the tree.** With distinct object names, looking a name up by the
+    depth-first search used for ref resolution finds exactly the object of that name, wherever it
+    is declared (before or after the ref, at any depth). -/
+theorem ref_resolves_anywhere (os : List Object) (o : Object) (ho : o ∈ allObjects os)
+    (hnd : ((allObjects os).map (·.name)).Nodup) : searchObject o.name os = some o := by
+  unfold searchObject
+  generalize allObjects os = l at ho hnd
+  induction l with
+  | nil => cases ho
+  | cons y ys ih =>
+    simp only [List.map_cons, List.nodup_cons] at hnd
+    unfold List.find?
+    by_cases hk : y.name = o.name
+    · simp only [hk, beq_self_eq_true]
+      cases ho with
+      | head => rfl
+      | tail _ hmem => exact absurd (List.mem_map.2 ⟨o, hmem, hk.symm⟩) hnd.1
+    · have : (y.name == o.name) = false := by simp [hk]
+      simp only [this]
+      cases ho with
+      | head => exact absurd rfl hk
+      | tail _ hmem => exact ih hmem hnd.2
+
+/-! ### Device name -/
+
+/-- The device name must be a fixed point of the lenient PascalCase conversion; otherwise the
+    lowering reports `device_name_not_pascal` naming the expected spelling. -/
+theorem device_name_check (n : Names) (name : String) (d : Device) (h : name ≠ n.devicePascal) :
+    lower n name d = .error (lowerErr "device_name_not_pascal" [n.devicePascal]) := by
+  unfold lower
+  simp [h, bind, Except.bind, throw, throwThe, MonadExceptOf.throw]
+
+/-! ### Front ends: refs to buffers / refs and layout keys in overrides -/
+
+theorem ref_to_buffer_or_ref_rejected (target : String) (ov : AOverride) :
+    (ov.kind = "buffer" → dslOverride target ov = .error (frontErr "front_ref_buffer") ∧
+                          ∀ s, manOverride s target ov = .error (frontErr "front_ref_buffer")) ∧
+    (ov.kind = "ref" → dslOverride target ov = .error (frontErr "front_ref_ref") ∧
+                       ∀ s, manOverride s target ov = .error (frontErr "front_ref_ref")) := by
+  constructor
+  · intro hk
+    constructor
+    · unfold dslOverride
+      simp [hk, bind, Except.bind, throw, throwThe, MonadExceptOf.throw]
+    · intro s; unfold manOverride
+      simp [hk, bind, Except.bind, throw, throwThe, MonadExceptOf.throw]
+  · intro hk
+    constructor
+    · unfold dslOverride
+      simp [hk, bind, Except.bind, throw, throwThe, MonadExceptOf.throw]
+    · intro s; unfold manOverride
+      simp [hk, bind, Except.bind, throw, throwThe, MonadExceptOf.throw]
+
+theorem override_layout_keys_rejected (target : String) (ov : AOverride) (hil : ov.illegal ≠ [])
+    (hk : ov.kind = "block" ∨ ov.kind = "register" ∨ ov.kind = "command") :
+    dslOverride target ov = .error (frontErr "front_override_layout") ∧
+    ∀ s, manOverride s target ov = .error (frontErr "front_override_layout") := by
+  have hne : ov.illegal.isEmpty = false := by
+    cases h : ov.illegal with
+    | nil => exact absurd h hil
+    | cons a as => rfl
+  constructor
+  · unfold dslOverride
+    rcases hk with hk | hk | hk <;>
+      simp [hk, hne, bind, Except.bind, pure, Except.pure, throw, throwThe, MonadExceptOf.throw]
+  · intro s
+    unfold manOverride
+    rcases hk with hk | hk | hk <;>
+      simp [hk, hne, bind, Except.bind, pure, Except.pure, throw, throwThe, MonadExceptOf.throw]
 
 end DDV.Props.C14
